@@ -774,7 +774,7 @@ theorem lone_listen_claim {cfg : Cfg} {n : Net} {x : Nat} {st : NetStation} {l :
     (hv : RingView [st.s.p.address] st.s.p.address st.s.ring.claimToken) :
     ∃ n' c, n.poll x now = (n', [], some (.ok c)) ∧ n'.bus.seen.getD x 0 = now ∧ c.tx = some (selfToken st.s.p.address) ∧
       Solo cfg n' x (upSt st c) (now + (cfg.b33 : Nat)) ∧ SStage.c2.ok c.s ∧
-      RingView [st.s.p.address] st.s.p.address c.s.ring ∧ c.s.p = st.s.p := by
+      RingView [st.s.p.address] st.s.p.address c.s.ring ∧ c.s.p = st.s.p ∧ c.s.pendingBytes = st.s.pendingBytes := by
   have hno : st.s.st ≠ .offline ∧ st.s.st ≠ .passiveIdle := by rw [hst]; simp
   have hc2 := cfg.ce2 hok.rate
   have hb33 := h.b33
@@ -794,7 +794,7 @@ theorem lone_listen_claim {cfg : Cfg} {n : Net} {x : Nat} {st : NetStation} {l :
       refine ⟨by show 0 < 3; omega, ?_⟩
       show now + ((cfg.ce 2 : Nat) : Int) ≤ _
       omega)
-  exact ⟨n', _, hp, hseen, rfl, hS, rfl, hv, rfl⟩
+  exact ⟨n', _, hp, hseen, rfl, hS, rfl, hv, rfl, rfl⟩
 
 /-- **Run of a station that is alone on a silent bus** (`T` = stamp + token-lost time-out, `lim` = latest time of
 the first claim, `D` = time budget of the formation): every poll returns regularly and receives nothing; nothing
@@ -826,7 +826,7 @@ theorem lone_cold_start {cfg : Cfg} (hok : cfg.Ok) (x : Nat) (st : NetStation) (
     · obtain ⟨n', c, hp, htx, hS', hseen⟩ := lone_listen_wait h hok coll hst now hlt hw
       refine ⟨n', c, hp, .inl ⟨htx, hw, ?_⟩⟩
       exact ih n' hS' hst hsync hv (by rw [hseen]; omega) hT (by rw [hseen]; exact hrest)
-    · obtain ⟨n', c, hp, hseen, htx, hS', hs2, hv', hp'⟩ := lone_listen_claim h hok coll hst now hlt (by omega) hsync hv
+    · obtain ⟨n', c, hp, hseen, htx, hS', hs2, hv', hp', -⟩ := lone_listen_claim h hok coll hst now hlt (by omega) hsync hv
       refine ⟨n', c, hp, .inr ⟨by omega, by omega, htx, hs2, ?_⟩⟩
       have e1 : (upSt st c).s.p.address = st.s.p.address := by show c.s.p.address = _; rw [hp']
       have e2 : (upSt st c).s.p.hsa = st.s.p.hsa := by show c.s.p.hsa = _; rw [hp']
